@@ -127,7 +127,7 @@ def run(ctx):
     T = ctx.tier == "thorough"
     idx = 0
     nmax = 10 if T else 7
-    fams = TR.READ_FAMILIES
+    fams = TR.READ_FAMILIES + ("BARE",)
     for n in range(1, nmax + 1):
         cnt = 0
         for par in gen.ordered_trees(n):
